@@ -97,6 +97,11 @@ def generate(ck):
         [1.5, 2.5, 1.5, 0.0, 0.25, 0.0, 1, 1, 1],
     ]
     pure = [[1, 0, 0], [0, 1, 0], [0, 0, 1], [0.5, 0.5, 0], [0, 0.5, 0.5], [1 / 3, 1 / 3, 1 / 3]]
+    # a mobile phase present only as a trace: k underflows to (sub)normal numbers or 0 - still a valid
+    # record, still finite, still inside [0, k_max]
+    tiny = [[0.7, 0.3 - 1e-60, 1e-60], [1e-200, 0.4, 0.6 - 1e-200], [0.5, float(np.nextafter(0, 1)), 0.5], [1 - 1e-310, 1e-310, 0.0]]
+    for p0 in ([6, 6, 6, 0, 0, 0, 1, 1, 1], [5.5, 6, 3.3, 0, 0, 0, 1e-3, 1, 1], [1, 1, 1, 0, 0, 0, 1, 1, 1]):
+        descs.append({"kind": "records", "params": [float(v) for v in p0], "sats": tiny})
     for p in corner_params:
         descs.append({"kind": "records", "params": [float(v) for v in p], "sats": pure})
         for ph in range(3):
